@@ -205,6 +205,28 @@ def main():
                         calls.append({'e': 'evaluated', 'keys': sorted(keys)})
             nbatches = len([e for e in r['ok']['events'] if e['e'] == 'batch'])
             ncalls_only = [e for e in calls if e['e'] == 'call']
+            if not ncalls_only and nbatches >= expected_batches[name]:
+                # the batches were ranked without the sampler being consulted: judged from the rows each batch produced
+                cap_ = job['args'].get('combination_number_upper_bound', 2 ** 15)
+                sizes = [len({frozenset((t_[0], t_[1])) for t_ in (e.get('trip') or [])}) for e in r['ok']['events'] if e['e'] == 'batch']
+                if any(sz > cap_ for sz in sizes):
+                    V.violation(f'cap:{name}', f'batches evaluated {sizes} distinct combinations, the cap is {cap_} (the sampler was not consulted at all)', {'conf': name, 'args': job['args']})
+                    continue
+                tally_ = {}
+                for e in r['ok']['events']:
+                    if e['e'] == 'batch':
+                        for pr_ in {frozenset((t_[0], t_[1])) for t_ in (e.get('trip') or [])}:
+                            tally_[pr_] = tally_.get(pr_, 0) + 1
+                rep_ = {}
+                for k_, v_ in r['ok']['comb_counts'].items():
+                    try:
+                        rep_[frozenset(eval(k_))] = v_
+                    except Exception:
+                        pass
+                if any(rep_.get(pr_, 0) != n_ for pr_, n_ in tally_.items()):
+                    V.violation(f'reported-counts:{name}', f'the reported evaluation counts {dict(list(r["ok"]["comb_counts"].items())[:4])} are not the number of batches in which each combination was evaluated ({nbatches} batches; the sampler was not consulted)', {'conf': name, 'args': job['args']})
+                    continue
+                raise E.MachineryError(f'{name}: recorder saw no sampler call in {nbatches} batches')
             if not ncalls_only or nbatches < expected_batches[name]:
                 raise E.MachineryError(f'{name}: recorder saw {len(calls)} sampler calls in {nbatches} batches')
             tf = os.path.join(wd, f'{name}.ndjson')
